@@ -66,5 +66,41 @@ pub fn all() -> Vec<PropDef> {
             assumptions: &[REF_ASSUME, "(key, iv) pairs are sampled; the s16==0 branch (probability 2^-31 per step) is reported by probe, not claimed covered"],
             exhaustive_per_sample: true,
         },
+        PropDef {
+            id: "C09",
+            level: "fault_enumeration",
+            runs: crate::gen_sm9::runs_c09,
+            run: crate::gen_sm9::run_c09,
+            rule: "SM9 signature sessions with KGC, signer and verifier played by the library or the reference (random r through the RNG seam, exact comparison with GM/T 0044.2, Annex A example), then per seeded sample the fault menu on (h,S) in transit: every bit of h and S, h in {0,1,N-2,N-1,N,N+1,2^256-1,h+N}, S := 2S/-S/P1/zero, changed message/identity/master public key, misdelivery, random pairs; a case is one op (inputs as delivered) on which a C09 oracle was evaluated",
+            assumptions: &[REF_ASSUME, "tamper oracle: library Ok => the strict reference verifier accepts the delivered tuple", SAMPLE_ASSUME],
+            exhaustive_per_sample: true,
+        },
+        PropDef {
+            id: "C10",
+            level: "fault_enumeration",
+            runs: crate::gen_sm9::runs_c10,
+            run: crate::gen_sm9::run_c10,
+            rule: "SM9 encryption sessions (every message length 1..=255 per batch; encryptor library or reference; random r through the RNG seam, exact comparison with GM/T 0044.4 incl. Annex A and a scripted r whose K1 is zero), then per seeded sample the fault menu on the ciphertext: every bit, every truncation, extensions, other identity, C1 := other points / every prefix byte, crafted victim-consistent off-curve C1; a case is one op (inputs as delivered) on which a C10 oracle was evaluated",
+            assumptions: &[REF_ASSUME, "tamper oracle: a plaintext may be returned only where the strict reference decryptor returns the same one", "the crafting adversary knows de and evaluates the victim's pairing through the verification wrapper", SAMPLE_ASSUME],
+            exhaustive_per_sample: true,
+        },
+        PropDef {
+            id: "C17",
+            level: "fault_enumeration",
+            runs: crate::gen_sm9::runs_c17,
+            run: crate::gen_sm9::run_c17,
+            rule: "SM9 key exchange between initiator and responder played by the library or the reference (ephemeral scalars through the RNG seam, exact comparison of R_A and SK with GM/T 0044.3, Annex A example), then per seeded sample faults on R_A or R_B in transit (every 8th bit in quick / every bit in thorough, other valid point, zero, off-curve, p); a case is one protocol step or session end on which a C17 oracle was evaluated",
+            assumptions: &[REF_ASSUME, "'modified in transit' is decided on wire bytes, as the property states it", SAMPLE_ASSUME],
+            exhaustive_per_sample: true,
+        },
+        PropDef {
+            id: "C15",
+            level: "fault_enumeration",
+            runs: crate::gen_sm2kex::runs_c15,
+            run: crate::gen_sm2kex::run_c15,
+            rule: "four-message SM2 key agreement between parties played by the library or the reference ({lib,lib},{lib,ref},{ref,lib}); honest runs over key/ID/klen classes with ephemeral scalars scripted through the RNG seam (exact comparison of R, S_B, S_A, K with GB/T 32918.3; Annex A example), then for each sample all 16 subsets of {R_A,R_B,S_B,S_A} x {bit flip, substitution, off-curve point} plus faults on the responder's stored R_A; a case is one protocol step (inputs as delivered) on which a C15 oracle was evaluated",
+            assumptions: &[REF_ASSUME, "a tampered run is judged by the reference party in the same position on the same delivered bytes, never by 'was it modified'", SAMPLE_ASSUME],
+            exhaustive_per_sample: true,
+        },
     ]
 }
